@@ -370,7 +370,8 @@ class Check:
             print("KNOWN-FINDING: property=%s %s [%s]" % (self.prop, known[key].get("what", what), key), flush=True)
         rc = 0
         for key, (what, replay) in sorted(new.items()):
-            fn = os.path.join(VERIF, "replays", "%s-%s.json" % (self.prop, re.sub(r"[^A-Za-z0-9_.-]+", "_", key)[:80]))
+            fn = os.path.join(VERIF, "replays", "%s-%s-%s.json" % (self.prop, re.sub(r"[^A-Za-z0-9_.-]+", "_", key)[:70],
+                                                                   hashlib.md5(key.encode()).hexdigest()[:6]))
             json.dump({"property": self.prop, "key": key, "what": what, "replay": replay}, open(fn, "w"), indent=1)
             print("VIOLATION property=%s replay=%s" % (self.prop, fn), flush=True)
             print("  key=%s: %s" % (key, what), flush=True)
